@@ -2,7 +2,7 @@
    (Sys.v).  Each one excludes the shape of ONE recorded defect of the unchanged code (C13_Refuted.v shows, per
    hypothesis, a history that satisfies all the others and violates the conclusion), plus the modelling assumptions
    (names in scope, no history entry merged away, sequences below 2^64). *)
-From SG Require Import Base.Prelude C20.SeqIdGen C20.SeqId C13.Revocation C13.Feed C13.Client C13.DocHist C13.GrantSys C13.Sys.
+From SG Require Import Base.Prelude C20.SeqIdGen C20.SeqId C13.Revocation C13.Feed C13.Client C13.DocHist C13.GrantSys C13.PeriodsProofs C13.Sys.
 Open Scope N_scope.
 
 (* the state after a list of operations (a pull loads the user and every role) *)
@@ -98,3 +98,25 @@ Definition hyps (ops : list sop) : bool := along op_hyps ops sys_init && no_refi
 
 Definition all_match (ops : list sop) : bool :=
   forallb (fun o => negb (o_caught o) || same_docs (o_client o) (o_visible o)) (trace ops).
+
+(* ---------- the hypotheses of the theorem ---------- *)
+Fixpoint alongP (p : sys -> sop -> Prop) (ops : list sop) (y : sys) : Prop :=
+  match ops with
+  | [] => True
+  | o :: rest => p y o /\ alongP p rest (sys_step y o)
+  end.
+
+(* no document channel history is merged (at most 4 earlier periods of a channel per document) *)
+Definition docs_unmerged (y : sys) : Prop :=
+  forall x c, In x (y_docs y) -> (length (starts_of c (sd_csh x)) < doc_max_entries)%nat.
+
+Definition op_hyp (y : sys) (o : sop) : Prop :=
+  op_unlimited y o = true                            (* (2) pages *)
+  /\ op_no_stale_role y o = true                     (* (4) role (re-)created after a document granted it a channel *)
+  /\ no_restamp (y_g y) (sys_gops y o)               (* (5) a rebuild re-stamps a kept grant with a later sequence *)
+  /\ op_names_ok y o = true                          (* channel 0 is "*", grantee 0 the user *)
+  /\ docs_unmerged y /\ unpruned (y_g y) (sys_gops y o)   (* no history entry merged away *)
+  /\ y_next y + 2 < max64.                           (* sequences below 2^64 *)
+
+(* (1), (2), (4), (5) and the modelling assumptions, for a whole history *)
+Definition history_hyps (ops : list sop) : Prop := alongP op_hyp ops sys_init /\ no_refill (trace ops) = true.
